@@ -47,6 +47,7 @@ func c02tokens() []c02tok {
 		{"float NaN", func() any { return nanValue() }},
 		{"time", func() any { return tsUTC }},
 		{"[]string", func() any { return []string{"a", "b c"} }},
+		{"Stringer that logs", func() any { return reentV{"re-entrant"} }},
 	}
 }
 
